@@ -56,6 +56,7 @@ fn registry(id: &str) -> Option<(&'static str, RunFn, ReplayFn)> {
     Some(match id {
         "C15" => ("C15", props::c15::run, props::c15::replay),
         "C02" => ("C02", props::c02::run, props::c02::replay),
+        "C03" => ("C03", props::c03::run, props::c03::replay),
         "C04" => ("C04", props::c04::run, props::c04::replay),
         "C06" => ("C06", props::c06::run, props::c06::replay),
         "C07" => ("C07", props::c07::run, props::c07::replay),
@@ -85,6 +86,47 @@ fn main() {
         .and_then(|s| s.trim().parse::<i128>().ok())
         .map(|v| v as u64)
         .unwrap_or(1);
+    if args[0] == "C03" && args[1] == "--gen-corpus" {
+        let dir = args.get(2).cloned().unwrap_or_else(|| format!("{}/corpus", common::verif_root()));
+        match props::c03::gen_corpus(&dir) {
+            Ok(n) => {
+                println!("wrote {n} seed inputs under {dir}");
+                std::process::exit(0);
+            }
+            Err(e) => {
+                eprintln!("INCONCLUSIVE: {e}");
+                std::process::exit(2);
+            }
+        }
+    }
+    if args[0] == "C03" && args[1] == "--from-fuzz" {
+        // rbverif C03 --from-fuzz <target> <artifact> : judge a libFuzzer artifact with the harness oracle
+        let (Some(target), Some(file)) = (args.get(2), args.get(3)) else { usage() };
+        let data = std::fs::read(file).unwrap_or_else(|e| {
+            eprintln!("INCONCLUSIVE: {e}");
+            std::process::exit(2)
+        });
+        let case = props::c03::case_from_fuzz(target, data);
+        let run = Run::new(id, Tier::Thorough, seed);
+        let out = match common::catch(|| props::c03::check(&case)) {
+            Ok(r) => r,
+            Err(p) => Err(p.into_failure("fuzz-artifact")),
+        };
+        match out {
+            Ok(_) => {
+                println!("NOTE: artifact {file} passes the harness oracle (fuzz target and harness disagree)");
+                std::process::exit(3);
+            }
+            Err(f) => {
+                if let Some(fid) = run.open_match(&f) {
+                    println!("KNOWN-FINDING: property={id} [{fid}] reproduced by fuzz artifact {file}");
+                    std::process::exit(0);
+                }
+                run.record_violation(&format!("fuzz-{target}"), &serde_json::to_value(&case).unwrap(), f);
+                std::process::exit(1);
+            }
+        }
+    }
     if args[1] == "--replay" {
         let path = args.get(2).unwrap_or_else(|| usage());
         let text = std::fs::read_to_string(path).unwrap_or_else(|e| {
